@@ -565,7 +565,28 @@ func (hg *histGen) emitPattern() {
 	a := g.Intn(nO)
 	b := g.Intn(nO)
 	r := g.Intn(len(hg.mregs))
-	switch g.Intn(10) {
+	switch g.Intn(11) {
+	case 10: // two option values built side by side from the same first profile, then used one after the other (and again)
+		pn := sortedKeys(harnessProfiles)
+		if len(pn) < 3 || len(hg.mregs) >= 5 {
+			hg.emitLint(a, r, false)
+			return
+		}
+		ix := g.subset(len(pn), 3)
+		o1 := &FilterOpts{Profiles: []string{pn[ix[0]], pn[ix[1]]}}
+		o2 := &FilterOpts{Profiles: []string{pn[ix[0]], pn[ix[2]]}}
+		if g.Chance(0.3) {
+			o2.ExcludeSources = []string{"Mozilla"}
+		}
+		p.Ops = append(p.Ops, Op{K: "mkopts", Opts: o1}, Op{K: "mkopts", Opts: o2})
+		c1 := hg.emitFilterOpts(0, o1)
+		c2 := hg.emitFilterOpts(0, o2)
+		c3 := hg.emitFilterOpts(0, o1)
+		for _, c := range []int{c1, c2, c3} {
+			if c >= 0 && g.Chance(0.5) {
+				hg.emitLint(a, c, false)
+			}
+		}
 	case 9: // equal options twice with a configuration set on the FIRST CHILD in between: the second child must not see it
 		var cands []int
 		for ci, c := range p.Cfgs {
